@@ -4,7 +4,7 @@ from props.common import TRUSTED_BASE, ASSUMPTIONS
 
 ID = "C10"
 FORMAT_GROUP = "total"
-LEAN_MODULES = ["LexVerif.Props.C10", "LexVerif.Props.C04Format", "LexVerif.Props.C10Debug", "LexVerif.Props.Literals.ParseFloatParse", "LexVerif.Props.Literals.ParseFloatShared", "LexVerif.Props.Literals.ParseIntegerAlgorithm", "LexVerif.Props.Literals.UtilSkip", "LexVerif.Props.Literals.UtilNoskip", "LexVerif.Props.Literals.UtilIterator", "LexVerif.Props.Literals.UtilDigit", "LexVerif.Props.Literals.ParseFloatApi", "LexVerif.Props.Literals.ParseIntegerApi", "LexVerif.Props.Literals.ParseFloatSlow", "LexVerif.Props.Literals.ParseFloatBigint"]
+LEAN_MODULES = ["LexVerif.Props.Literals.UtilError", "LexVerif.Props.Literals.UtilResult", "LexVerif.Props.C10", "LexVerif.Props.C04Format", "LexVerif.Props.C10Debug", "LexVerif.Props.Literals.ParseFloatParse", "LexVerif.Props.Literals.ParseFloatShared", "LexVerif.Props.Literals.ParseIntegerAlgorithm", "LexVerif.Props.Literals.UtilSkip", "LexVerif.Props.Literals.UtilNoskip", "LexVerif.Props.Literals.UtilIterator", "LexVerif.Props.Literals.UtilDigit", "LexVerif.Props.Literals.ParseFloatApi", "LexVerif.Props.Literals.ParseIntegerApi", "LexVerif.Props.Literals.ParseFloatSlow", "LexVerif.Props.Literals.ParseFloatBigint"]
 GEN = ["literals"]
 PROFILES = {"quick": ["release", "dbg"], "thorough": ["release", "dbg"]}
 TRUSTED = TRUSTED_BASE + [
